@@ -222,3 +222,5 @@ pub fn range_map_collect<U, F: Fn(usize) -> U>(lo: usize, hi: usize, f: F) -> (r
 pub fn opt_into_vec(o: Option<u64>) -> (r: Vec<u64>) ensures r@ == (match o { Some(k) => seq![k], None => Seq::<u64>::empty() }) {
     match o { Some(k) => { let mut v = Vec::new(); v.push(k); v } None => Vec::new() }
 }
+// assert_eq!(a, b) in executable code: panics when the values differ, so the call carries the obligation that they are equal
+pub fn vassert_eq(a: usize, b: usize) requires a == b {}
